@@ -100,6 +100,18 @@ def run(ctx):
         confs.append(("LZMA2", None, "encoded"))
         jobs.append((None, m0, ch["LZMA2"], None, "encoded", "w"))
         meta.append(("create:LZMA2/" + tag, m0, [], None))
+    # members whose bytes are themselves a complete archive (stored verbatim by Copy, and by LZMA2 when incompressible):
+    # while the outer start header is still a placeholder or torn, the file contains a valid inner signature header —
+    # a reader must still refuse the image, not fall back to whatever archive it can find further on
+    inner = arclib.write_archive([("secret-a.txt", b"inner member one"), ("secret-b.txt", rng.randbytes(40))],
+                                 filters=ch["Copy"], header="raw")
+    inner2 = arclib.write_archive([("in.bin", rng.randbytes(64))], filters=ch["LZMA2"])
+    for tag, lab2, hdr2, m0 in (("nested-copy", "Copy", "raw", [("outer.txt", b"outer"), ("inner.7z", inner), ("tail", b"t")]),
+                                ("nested-lzma2", "LZMA2", "encoded", [("inner.7z", inner2), ("x", rng.randbytes(30))]),
+                                ("nested-first", "Copy", "encoded", [("inner.7z", inner)])):
+        confs.append((lab2, None, hdr2))
+        jobs.append((None, m0, ch[lab2], None, hdr2, "w"))
+        meta.append(("create:%s/%s" % (lab2, tag), m0, [], None))
     rec = sandbox.pmap(_record, jobs, timeout=120)
     # append sessions on top of the created archives
     ajobs, ameta = [], []
